@@ -30,18 +30,9 @@ import (
 	"verifharness/vh"
 )
 
-var stNames = map[model.ShipMessageExchangeState]string{0: "InitStart", 1: "ClientSend", 2: "ClientWait", 3: "ClientEvaluate", 4: "ServerWait", 5: "ServerEvaluate",
-	6: "Hello", 7: "ReadyInit", 8: "ReadyListen", 9: "ReadyTimeout", 10: "PendingInit", 11: "PendingListen", 12: "PendingTimeout", 13: "HelloOk", 14: "Abort", 15: "AbortDone", 16: "RemoteAbortDone", 17: "Rejected",
-	18: "ServerInit", 19: "ClientInit", 20: "ServerListenProposal", 21: "ServerListenConfirm", 22: "ClientListenChoice", 23: "ProtTimeout", 24: "ClientOk", 25: "ServerOk",
-	26: "PinCheckInit", 27: "PinCheckListen", 28: "PinCheckError", 29: "PinCheckBusyInit", 30: "PinCheckBusyWait", 31: "PinCheckOk", 32: "PinAskInit", 33: "PinAskProcess", 34: "PinAskRestricted", 35: "PinAskOk",
-	36: "AccessMethodsRequest", 37: "Approved", 38: "Complete", 39: "Error"}
+var stNames = vh.StNames
 
-func stName(s model.ShipMessageExchangeState) string {
-	if n, ok := stNames[s]; ok {
-		return n
-	}
-	return "State" + strconv.Itoa(int(s))
-}
+func stName(s model.ShipMessageExchangeState) string { return vh.StName(s) }
 
 var timerNames = []string{"WFR", "SPR", "PRR"}
 
@@ -134,87 +125,11 @@ func (w *writer) isClosed() bool { w.mu.Lock(); defer w.mu.Unlock(); return w.cl
 
 // ---------------------------------------------------------------- abstraction of frames
 
-var ids = map[string]string{"A": "SHIP-A", "B": "SHIP-B", "empty": ""}
+var ids = vh.IDs
 
-func absID(s string) string {
-	switch s {
-	case "SHIP-A":
-		return "A"
-	case "SHIP-B":
-		return "B"
-	case "":
-		return "empty"
-	}
-	return "other"
-}
+func absID(s string) string { return vh.AbsID(s) }
 
-func reStr(k string) *regexp.Regexp { return regexp.MustCompile(`"` + k + `":"([^"]*)"`) }
-
-var (
-	rePhase   = reStr("phase")
-	reHsType  = reStr("handshakeType")
-	rePin     = reStr("pinState")
-	reID      = reStr("id")
-	reWaiting = regexp.MustCompile(`"waiting":(\d+)`)
-)
-
-// classify maps a frame written by the real code to (event kind, abstract message string, id)
-func classify(b []byte) (kind, m, id string) {
-	if len(b) == 2 && b[0] == 0 && b[1] == 0 {
-		return "sent", "init.ok", ""
-	}
-	if len(b) == 0 {
-		return "sent", "empty", ""
-	}
-	s := string(b[1:])
-	g := func(re *regexp.Regexp) string {
-		if x := re.FindStringSubmatch(s); x != nil {
-			return x[1]
-		}
-		return ""
-	}
-	switch {
-	case b[0] == model.MsgTypeData && strings.Contains(s, `"datagram"`):
-		n := "?"
-		if x := reN.FindStringSubmatch(s); x != nil {
-			n = x[1]
-		}
-		return "sentdata", "data", n
-	case strings.Contains(s, `"connectionHello"`):
-		w, p := "absent", "absent"
-		if x := reWaiting.FindStringSubmatch(s); x != nil {
-			v, _ := strconv.Atoi(x[1])
-			switch {
-			case v < 1000:
-				w = "lt1"
-			case v < 30000:
-				w = "mid"
-			default:
-				w = "ge30"
-			}
-		}
-		if strings.Contains(s, `"prolongationRequest":true`) {
-			p = "true"
-		} else if strings.Contains(s, `"prolongationRequest":false`) {
-			p = "false"
-		}
-		return "sent", "hello." + g(rePhase) + "." + w + "." + p, ""
-	case strings.Contains(s, `"messageProtocolHandshake"`):
-		return "sent", "prot." + g(reHsType), ""
-	case strings.HasPrefix(s, `{"error"`):
-		return "sent", "proterr", ""
-	case strings.Contains(s, `"connectionPinState"`):
-		return "sent", "pin." + g(rePin), ""
-	case strings.Contains(s, `"accessMethodsRequest"`):
-		return "sent", "accreq", ""
-	case strings.Contains(s, `"accessMethods"`):
-		i := absID(g(reID))
-		return "sent", "acc." + i, i
-	case strings.Contains(s, `"connectionClose"`):
-		return "sentclose", "close." + g(rePhase), ""
-	}
-	return "sent", "unclassified", ""
-}
+func classify(b []byte) (kind, m, id string) { return vh.Classify(b) }
 
 func ctl(s string) []byte { return append([]byte{model.MsgTypeControl}, []byte(s)...) }
 
